@@ -2393,6 +2393,44 @@ impl Part for LibFuzzer {
         let before: BTreeSet<String> = load_dir(ARTIFACT_DIR).into_iter().map(|(n, _)| n).collect();
         let work = "/verif/fuzz/corpus-work/parse_total";
         let _ = std::fs::remove_dir_all(work);
+        let _ = std::fs::create_dir_all(ARTIFACT_DIR);
+        let flags = |dir: &str, runs: u64, seed: u64| -> Vec<String> {
+            vec![dir.to_string(), format!("-runs={runs}"), format!("-seed={seed}"), s("-max_len=4096"), s("-len_control=0"), s("-print_final_stats=1"), s("-dict=/verif/fuzz/sparql.dict"), s("-timeout=120"), s("-rss_limit_mb=4096")]
+        };
+        // `cargo fuzz run` keeps the build-directory lock while the target runs, so concurrent invocations would
+        // serialise: one `cargo fuzz run ... -runs=0` pass (loads the seed corpus through the target, prints the
+        // binary it runs), then the jobs execute that same binary with the same flags in parallel.
+        let probe_dir = format!("{work}/probe");
+        if copy_dir(CORPUS_DIR, &probe_dir).is_err() {
+            o.skipped.push("libfuzzer-corpus-copy-failed");
+            return o;
+        }
+        let mut args = vec![s("+nightly"), s("fuzz"), s("run"), s("--fuzz-dir"), s("/verif/fuzz"), s("parse_total")];
+        let mut fl = flags(&probe_dir, 0, 1);
+        args.push(fl.remove(0));
+        args.push(s("--"));
+        args.extend(fl);
+        let probe = cargo(&args).output();
+        let mut binary = None;
+        if let Ok(out) = &probe {
+            let err = String::from_utf8_lossy(&out.stderr);
+            for l in err.lines() {
+                if let Some(p) = l.trim_start().strip_prefix("Running `") {
+                    binary = p.split_whitespace().next().map(|x| x.trim_end_matches('`').to_string());
+                }
+                if let Some(v) = l.strip_prefix("stat::number_of_executed_units:") {
+                    o.inner_evals += v.trim().parse::<u64>().unwrap_or(0);
+                }
+            }
+            if !out.status.success() {
+                eprintln!("[libfuzzer] seed-corpus pass failed:\n{}", clip(&err, 3000));
+            }
+        }
+        let Some(binary) = binary else {
+            o.skipped.push("libfuzzer-binary-not-found");
+            return o;
+        };
+        eprintln!("[libfuzzer] binary {binary}");
         let mut children = vec![];
         for j in 0..c.jobs {
             let dir = format!("{work}/job{j}");
@@ -2401,30 +2439,35 @@ impl Part for LibFuzzer {
                 return o;
             }
             let seed = if c.seed == 0 { 1 } else { c.seed } + j as u64 * 7919;
-            let args = vec![
-                s("+nightly"), s("fuzz"), s("run"), s("--fuzz-dir"), s("/verif/fuzz"), s("parse_total"), dir, s("--"),
-                format!("-runs={}", c.runs_per_job), format!("-seed={seed}"), s("-max_len=4096"), s("-len_control=0"), s("-print_final_stats=1"), s("-dict=/verif/fuzz/sparql.dict"), s("-timeout=120"), s("-rss_limit_mb=4096"),
-            ];
-            match cargo(&args).spawn() {
-                Ok(ch) => children.push(ch),
+            let mut cmd = std::process::Command::new("sh");
+            cmd.arg("-c").arg("ulimit -s 1048576 2>/dev/null || ulimit -s unlimited 2>/dev/null; exec \"$@\"").arg("sh").arg(&binary).arg(format!("-artifact_prefix={ARTIFACT_DIR}/"));
+            cmd.args(flags(&dir, c.runs_per_job, seed)).current_dir("/verif/harness");
+            // libFuzzer is chatty on stderr: a file per job (a pipe would fill up and stall the job)
+            let Ok(logf) = std::fs::File::create(format!("{work}/job{j}.log")) else {
+                o.skipped.push("libfuzzer-log-file-failed");
+                return o;
+            };
+            cmd.stdin(std::process::Stdio::null()).stdout(std::process::Stdio::null()).stderr(logf);
+            match cmd.spawn() {
+                Ok(ch) => children.push((j, ch)),
                 Err(e) => {
-                    eprintln!("spawn cargo fuzz run: {e}");
+                    eprintln!("spawn fuzz job: {e}");
                     o.skipped.push("libfuzzer-unavailable");
                 }
             }
         }
         let mut crashed = false;
-        for ch in children {
-            match ch.wait_with_output() {
-                Ok(out) => {
-                    let err = String::from_utf8_lossy(&out.stderr);
+        for (j, mut ch) in children {
+            match ch.wait() {
+                Ok(status) => {
+                    let err = std::fs::read(format!("{work}/job{j}.log")).map(|b| String::from_utf8_lossy(&b).to_string()).unwrap_or_default();
                     let mut units = 0u64;
                     for l in err.lines() {
                         if let Some(v) = l.strip_prefix("stat::number_of_executed_units:") {
                             units = v.trim().parse().unwrap_or(0);
                         }
                         if l.starts_with("C16-VIOLATION") || l.contains("ERROR: libFuzzer") || l.starts_with("stat::") || l.starts_with("Done ") {
-                            eprintln!("[libfuzzer] {l}");
+                            eprintln!("[libfuzzer job {j}] {}", clip(l, 1500));
                         }
                     }
                     if units == 0 {
@@ -2437,7 +2480,7 @@ impl Part for LibFuzzer {
                         }
                     }
                     o.inner_evals += units;
-                    if !out.status.success() {
+                    if !status.success() {
                         crashed = true;
                     }
                 }
